@@ -105,6 +105,8 @@ WriteFrame(w, st, f) ==
           IN IF ~okData \/ nfs = Bad THEN [st EXCEPT !.fs = Bad]
              ELSE IF Fin(h)
              THEN IF ~cmpd /\ sum # m.len THEN [st EXCEPT !.fs = Bad]    \* fragments must add up to the message
+                  ELSE IF opt.limit[w] > 0 /\ m.api = "msg" /\ sum > opt.limit[w]
+                  THEN [st EXCEPT !.fs = Bad]                            \* an accepted message never exceeds the limit on the wire
                   ELSE [fs |-> nfs, done |-> st.done + 1, sum |-> 0]
              ELSE [fs |-> nfs, done |-> st.done, sum |-> sum]
 
